@@ -366,13 +366,13 @@ fn row_seq(c1: usize, c2: usize) {
 }
 
 stubs! {
-//@ props=C33 kind=bounded bound="two rows per buffer with (0,2) columns" timeout=3000 tier=thorough
+//@ props=C33 kind=bounded bound="two rows per buffer with (0,2) columns" timeout=3000 tier=manual
 /// row sequence: empty row then a 2-column row
 #[kani::proof]
 #[kani::unwind(4)]
 fn c33_row_sequence_0_2() { row_seq(0, 2); }
 
-//@ props=C33 kind=bounded bound="two rows per buffer with (2,1) columns" timeout=3000 tier=thorough
+//@ props=C33 kind=bounded bound="two rows per buffer with (2,1) columns" timeout=3000 tier=manual
 /// row sequence: 2-column row then a 1-column row
 #[kani::proof]
 #[kani::unwind(4)]
